@@ -180,6 +180,12 @@ func (w *webSessionFactory) Check(session string) (status int, errorStr string, 
 		return
 	}
 
+	if len(nonce) != w.aesgcm.NonceSize() { // aesgcm.Open() panics on this
+		status = http.StatusBadRequest
+		errorStr = "invalid session token"
+		return
+	}
+
 	var token string
 	status, errorStr, token = w.openToken(nonce, enctoken)
 	if status != http.StatusOK {
